@@ -241,6 +241,13 @@ func (w *world) opLose(t *inst, op Op) {
 	}
 	lost := map[int]bool{}
 	for _, i := range op.S {
+		if i == -100000 { // every node below the root
+			for j := 1; j < len(nodes); j++ {
+				lost[j] = true
+			}
+			w.stats.Inc("probe.whole-state-below-the-root-lost")
+			continue
+		}
 		sub := i < 0
 		if sub {
 			i = -i - 1
@@ -365,7 +372,13 @@ func (w *world) opLose(t *inst, op Op) {
 		w.stats.Inc("probe.repair-by-the-warm-trie-object")
 	}
 	var rerr error
-	if w.guard("MergeDB", func() { rerr = rep.MergeDB(donor, root, nil) }) {
+	if op.N%5 == 4 {
+		// the other documented way: copy the donor store into the trie's store as a whole
+		if w.guard("MergeState", func() { rerr = util.MergeState(context.Background(), donor, t.db) }) {
+			return
+		}
+		w.stats.Inc("probe.repair-by-mergestate")
+	} else if w.guard("MergeDB", func() { rerr = rep.MergeDB(donor, root, nil) }) {
 		return
 	}
 	if rerr != nil {
